@@ -224,6 +224,12 @@ func runC18(c *mon.Ctx) {
 		"256": big.NewInt(256), "257": big.NewInt(257), "258": big.NewInt(258), "2^32": new(big.Int).Lsh(bigOne, 32), "2^64": new(big.Int).Lsh(bigOne, 64),
 		"(r-1)/2": new(big.Int).Rsh(r, 1), "r-2": new(big.Int).Sub(r, big.NewInt(2)), "r-1": new(big.Int).Sub(r, bigOne), "511": big.NewInt(511), "65536": big.NewInt(65536),
 	}
+	for _, k := range []int64{1, 2, 255, 256, 257, 12345, 1 << 40} {
+		pts[fmt.Sprintf("montgomery-small-%d", k)] = new(big.Int).Mod(new(big.Int).Mul(big.NewInt(k), rInvFr), r)
+	}
+	pts["montgomery-2^64-1"] = new(big.Int).Mod(new(big.Int).Mul(new(big.Int).Sub(new(big.Int).Lsh(bigOne, 64), bigOne), rInvFr), r)
+	pts["2^64+5"] = new(big.Int).Add(new(big.Int).Lsh(bigOne, 64), big.NewInt(5))
+	pts["2^128+255"] = new(big.Int).Add(new(big.Int).Lsh(bigOne, 128), big.NewInt(255))
 	rngz := c.Rand("points")
 	for i := 0; i < c.Pick(6, 60); i++ {
 		pts[fmt.Sprintf("random%d", i)] = new(big.Int).Add(big.NewInt(256), randBig(rngz, new(big.Int).Sub(r, big.NewInt(256))))
